@@ -181,7 +181,9 @@ impl Write for IOQueue {
     }
 
     fn flush(&mut self) -> std::io::Result<()> {
-        if !self.as_slice().is_empty() {
+        // chunk that is being written is closed only if there is something in it,
+        // empty chunk between non-empty ones would look like the end of data to a reader
+        if self.chunks.back().is_some_and(|chunk| !chunk.is_empty()) {
             self.chunks.push_back(Default::default());
         }
         Ok(())
